@@ -72,6 +72,7 @@ Definition chk_corr (p : case * outcome) : bool := outcome_eqb (stage Model (fst
 Definition chk_mon (p : case * outcome) : bool := C09_ok (fst p) (snd p).
 Definition chk_hyg (p : case * outcome) : bool := hyg (fst p).
 Definition chk_notK4a (p : case * outcome) : bool := negb (sig_K4a (fst p)).
+Definition chk_notK4c (p : case * outcome) : bool := negb (sig_K4c (fst p)).
 Definition chk_staged (p : case * outcome) : bool := match snd p with Raised => false | _ => true end.
 """
 
@@ -493,6 +494,17 @@ LABEL_NAMES = ["LBL1", "RUN_DIR", "TAG"]
 DEP_NAMES = ["DEP1", "INPUTS"]
 PARAM_KEYS = ["P", "SIZE", "SIZEX", "ITER", "TRIAL", "P2"]
 STEP_NAMES = ["setup", "run-sim", "post.proc", "collect", "s1", "make", "verify_all", "s1x"]
+# legal step names with characters of the WSREGEX class that make_safe_path deletes
+ODD_NAMES = ["run:sim", "post+proc", "a,b", "k=v", "x~1", "s!", "pct%", "c^2", "a&b", "p|q", "{grp}", "[idx]",
+             "semi;", "<in>", "q?", "b`t", "v1.0:rc+2", "n=1,m=2"]
+# ... and with characters outside the class (known finding K4c)
+UNSCANNED_NAMES = ["run sim", "it's", "at@h", "n#1", "my step 2"]
+
+
+def _dir_guess(name):
+    """Generator-side only (keeps two steps from sharing a directory, which is
+    C10's K1): the expected directories come from the SafePath model in Coq."""
+    return "".join(ch for ch in name if ch.isascii() and (ch.isalnum() or ch in "-_.() ")).replace(" ", "_")
 WORDS = ["echo", "hello", "-n", "4", "out.dat", "./a.out", "--flag", "x=1", "done", "|", "tee", "log.txt",
          "&&", "sleep", "1", "'q'", "#c", "a,b", "[x]", "{y}", "100%", "~/bin", "@host", "a\\b"]
 NONASCII = ["héllo", "日本", "→", "naïve", "✓ok"]
@@ -616,10 +628,17 @@ def gen_case(rng, exotic=None, shape=None, api=False):
     # ---- steps ---------------------------------------------------------------
     nstep = rng.choice([1, 2, 2, 3, 3, 4, 5, 6])
     snames = []
-    for n in rng.sample(STEP_NAMES, len(STEP_NAMES)):
+    pool = rng.sample(STEP_NAMES, len(STEP_NAMES))
+    if rng.random() < 0.3:
+        # names that make_safe_path rewrites, mixed in at the front
+        pool = rng.sample(ODD_NAMES, rng.choice([1, 2, 3])) + pool
+        rng.shuffle(pool)
+    for n in pool:
         if len(snames) == nstep:
             break
         if any(n.startswith(o + "_") or o.startswith(n + "_") for o in snames):
+            continue
+        if not _dir_guess(n) or any(_dir_guess(n) == _dir_guess(o) for o in snames):
             continue
         snames.append(n)
     steps = []
@@ -1177,6 +1196,35 @@ def add_pgen_ops(rng, case):
     case["seq"] = "override" if stale else ("late" if late else "plain")
 
 
+def add_odd_funnel(rng, case, names=None):
+    """A parent whose NAME make_safe_path rewrites, funnelled into an
+    un-parameterised and a parameterised consumer that refer to its workspace
+    in cmd and restart, plus an ordinary (same-combination) consumer."""
+    params, steps = case["params"], case["steps"]
+    if not params:
+        params.append({"key": "P", "values": [1, 2], "label": "P.%%"})
+    k1 = params[0]["key"]
+    taken = [s["name"] for s in steps]
+    cand = [n for n in (names or ODD_NAMES)
+            if n not in taken and _dir_guess(n) and all(_dir_guess(n) != _dir_guess(o) for o in taken)
+            and not any(n.startswith(o + "_") or o.startswith(n + "_") for o in taken)]
+    par = rng.choice(cand)
+    parameterised = rng.random() < 0.8
+    steps.append({"name": par, "description": "oddly named parent",
+                  "run": OrderedDict([("cmd", "sim %s > $(WORKSPACE)/o" % ("$(%s)" % k1 if parameterised else "1"))])})
+    tok = "$(%s.workspace)" % par
+    steps.append({"name": "gather-all", "description": "un-parameterised funnel consumer",
+                  "run": OrderedDict([("cmd", "ls %s %s/sub" % (tok, tok)), ("depends", [par + rng.choice(["_*", "*"])]),
+                                      ("restart", "ls -l %s" % tok)])})
+    steps.append({"name": "contrast", "description": "parameterised funnel consumer",
+                  "run": OrderedDict([("cmd", "cmp $(%s) %s" % (k1, tok)), ("depends", [par + "_*"]),
+                                      ("restart", "cmp -r $(%s.label) %s/x" % (k1, tok))])})
+    steps.append({"name": "follow.on", "description": "ordinary consumer",
+                  "run": OrderedDict([("cmd", "cat %s/o" % tok), ("depends", [par]),
+                                      ("restart", "cat %s/o # again" % tok)])})
+    case["odd_funnel"] = par
+
+
 def add_superset_child(rng, case):
     """A child that uses strictly more parameters than its ordinary,
     parameterised parent and refers to the parent's workspace in cmd and
@@ -1218,9 +1266,17 @@ def generate(rng, n_valid, n_exotic):
                 if k % 12 == 2:
                     add_superset_child(rng, c)
                 c["hash_ws"] = True                   # hashed workspaces
+            elif k % 6 == 4:
+                add_odd_funnel(rng, c)                # funnel on a name make_safe_path rewrites
             cases.append(c)
     for k in range(n_exotic):
         cases.append(gen_case(rng, exotic=EXOTICS[k % len(EXOTICS)]))
+    for k in range(max(2, n_exotic // 13)):
+        # names with a character outside the WSREGEX class (K4c)
+        c = gen_case(rng)
+        c["stream"] = "exotic:unscanned_name"
+        add_odd_funnel(rng, c, names=UNSCANNED_NAMES)
+        cases.append(c)
     return cases
 
 
@@ -1246,7 +1302,7 @@ def evaluate(ck, cases, tag, shard):
     errs2 = []
     if frows:
         flits = [lits[i] for i in flagged]
-        keys = ("chk", "chk_hyg", "chk_valid", "chk_corr", "chk_mon", "chk_notK4a")
+        keys = ("chk", "chk_hyg", "chk_valid", "chk_corr", "chk_mon", "chk_notK4a", "chk_notK4c")
         from concurrent.futures import ThreadPoolExecutor
         with ThreadPoolExecutor(max_workers=len(keys)) as ex:
             res = list(ex.map(lambda key: coq_failing("C09d_%s%s" % (key, tag), HEADER, "case * outcome", key,
@@ -1297,6 +1353,10 @@ def classify(ck, rows, errs, dist):
         dist["hyg:%s:%s" % (stream.split(":")[0], r.get("hyg"))] += 1
         for n_, f_ in (c.get("path_forms") or {}).items():
             dist["dep_path:%s:%s" % ("cli" if c.get("cli") else "api", f_)] += 1
+        if c.get("odd_funnel"):
+            dist["odd_name_funnel:%s" % ("unscanned" if c["odd_funnel"] in UNSCANNED_NAMES else "rewritten")] += 1
+        if any(st["name"] in ODD_NAMES for st in c["steps"]):
+            dist["uses:step_name_rewritten_by_make_safe_path"] += 1
         if c.get("cli"):
             dist["cli:%s:%s" % ("-o" if c["cli"]["out"] else "default_dir",
                                 "spec_has_OUTPUT_PATH" if c["cli"]["spec_output_path"] else "no_OUTPUT_PATH")] += 1
@@ -1331,6 +1391,13 @@ def classify(ck, rows, errs, dist):
                 dist["known:K4a"] += 1
                 if not r.get("chk_corr", True):
                     drift(ck, dist, "K4a", cj)
+                continue
+            if not r.get("chk_notK4c", True) and "K4c" in known_ids:
+                ck.known_hit("K4c", "the workspace token of a step whose name has a character outside the WSREGEX "
+                                    "class (blank, quote, @, #) is never recognised and survives in the scripts")
+                dist["known:K4c"] += 1
+                if not r.get("chk_corr", True):
+                    drift(ck, dist, "K4c", cj)
                 continue
             if not r.get("hyg", True) and "K4b" in known_ids:
                 ck.known_hit("K4b", "token text that arises from substituted values (inside a value or at a "
@@ -1403,6 +1470,12 @@ def run(ck):
                       "one the hash_ws=False run records for the same instance -- implementation to implementation for "
                       "the directory names -- then C09_ok is evaluated as usual; a reference that is not exactly a "
                       "recorded workspace stays un-renamed and fails), "
+                      "step names with characters make_safe_path deletes (: + , = ~ ! %% ^ & | { } [ ] ; < > ? `), as "
+                      "ordinary and funnel parents referenced through $(<step>.workspace) in cmd and restart by "
+                      "un-parameterised and parameterised consumers -- the expected directory is the model's msp, i.e. "
+                      "SafePath.sanitize with the alphabet regenerated from utils.py; names with a character outside the "
+                      "WSREGEX class (blank, quote, @, #) form the exotic stream of known finding K4c; non-ASCII step "
+                      "names are not generated inside workspace tokens (the model reads \\w as ASCII), "
                       "path dependencies written as absolute / relative / ./-prefixed / ..-containing / trailing-slash / "
                       "doubled-slash texts of existing directories (the model's table maps $(NAME) to "
                       "os.path.abspath(text) at the cwd of the loading process, which is what the unchanged tree does at "
@@ -1425,7 +1498,7 @@ def run(ck):
             rows2, _ = evaluate(ck, more, "s%d" % rnd, shard=40)
             for r in rows2:
                 if r.get("bad") and r.get("chk_valid", True) and not r.get("chk_mon", True) \
-                        and r.get("chk_notK4a", True) and r.get("hyg", True):
+                        and r.get("chk_notK4a", True) and r.get("chk_notK4c", True) and r.get("hyg", True):
                     return ("C09_ok is false on the implementation's texts (found by search)", _case_json(r["case"]))
         return None
 
@@ -1467,15 +1540,16 @@ def replay(ck, path):
     print("spec:", model_text(model, "Spec"))
     lit = ["(%s, %s)" % (g_case(model), g_obs(obs))]
     res = {}
-    for key in ("chk", "chk_valid", "chk_corr", "chk_mon", "chk_hyg", "chk_notK4a"):
+    for key in ("chk", "chk_valid", "chk_corr", "chk_mon", "chk_hyg", "chk_notK4a", "chk_notK4c"):
         f, e = coq_failing("C09replay", HEADER, "case * outcome", key, lit)
         res[key] = (not f) and not e
     print("verdict:", res)
     if res["chk"]:
         print("OK")
         return 0
-    if not res["chk_mon"] and (not res["chk_notK4a"] or not res["chk_hyg"]):
-        print("KNOWN-FINDING: property=C09 %s" % ("K4a" if not res["chk_notK4a"] else "K4b"))
+    if not res["chk_mon"] and (not res["chk_notK4a"] or not res["chk_notK4c"] or not res["chk_hyg"]):
+        print("KNOWN-FINDING: property=C09 %s" % ("K4a" if not res["chk_notK4a"] else
+                                                   "K4c" if not res["chk_notK4c"] else "K4b"))
         return 0 if res["chk_corr"] else 1
     print("VIOLATION property=C09 replay=%s" % path)
     return 1
